@@ -17,6 +17,7 @@ from harness.impl import c09run as R
 
 IMPORTS = "From Ford Require Import Base.Str Base.Path Out.Names Out.Urls Gen.NavConds Out.Nav Corr.C09."
 THEOREMS = ["C09_relpath_resolves_any", "C09_relpath_resolves", "C09_site_resolves", "C09_url_depth1",
+            "C09_url_unanchored_kind", "C09_url_none_inherited",
             "C09_sibling_trick", "C09_sibling_trick_only_depth1", "C09_nav_pages", "C09_relative"]
 ROOT = R.FAKE_ROOT + "/out"
 COMPS = ["a", "b", "doc", "proc", "m.html", "..", ".", "", "lists"]
@@ -244,6 +245,12 @@ def _make_jobs(rng, n, navinfo):
         for maxnodes, maxdepth in (("4", "10000"), ("2", "1"), ("4", "2")):
             jobs.append(P.gen_spec(rng, force_shape=sh, force_options={"graph_maxnodes": maxnodes,
                                                                        "graph_maxdepth": maxdepth, "graph": "true"}))
+    # derived types declared inside procedures (with bindings): shown with proc_internals, project-wide or by
+    # the procedure's own metadata
+    for sh in [s for s in P.SHAPES if s[0] in ("full", "one-module", "module+program")]:
+        for pi in ("true", "false"):
+            jobs.append(P.gen_spec(rng, force_shape=sh, force_options={"proc_internals": pi,
+                                                                       "display": ["public", "private", "protected"]}))
     while len(jobs) < n:
         jobs.append(P.gen_spec(rng))
     return [{"spec": sp, "rseed": rng.randrange(1 << 30), "nav": navinfo} for sp in jobs[:max(n, len(P.SHAPES) * 2)]]
